@@ -852,6 +852,8 @@ func checkC15(c *Check) {
 	c06RejectWins(c, "R15")
 	c14FullMatchAnchorsWhole(c, "R16")
 	c15NormalizerTable(c, "R17")
+	c.Rule("R19", "PLAIN: an authorization identity different from the authentication identity is refused before any authentication – the entitlement lookup runs for the user whose password was checked (C14.R6)", 1)
+	importRules(c, "C14", c14Mapping, map[string]bool{"R6": true}, "R19")
 	// which source block – and so which checks – a sender gets is decided on the normalised address, domain rule
 	// included: a spelling that misses `source example.org { check { authorize_sender } }` (trailing dot, case) falls
 	// through to default_source and is never asked for authorization
